@@ -648,6 +648,9 @@ func runC09(c *engine.Ctx) {
 		}
 	})
 	c.Add(int64(len(jobs)), 0, 0, 0)
+	if c.Replay == nil {
+		c09StorageFaults(c)
+	}
 	for k := range outcomes {
 		c.Distinct(k)
 	}
